@@ -951,6 +951,15 @@ type output struct {
 	Funcs      int         `json:"functions_analysed"`
 	LockSites  int         `json:"lock_sites"`
 	BlockOK    []string    `json:"blockok"`
+	Sites      []outSite   `json:"sites"`
+}
+
+// a lock acquisition site and the lock class the analysis gives it (for the cross-validation against the
+// lock-order pairs observed on the instrumented real code)
+type outSite struct {
+	Pos   string `json:"pos"`
+	Class string `json:"class"`
+	Func  string `json:"func"`
 }
 
 func main() {
@@ -1346,6 +1355,20 @@ func (a *analysis) tables(tfns []*ssa.Function, wl []*wlEntry) *output {
 		return !x.Write && y.Write
 	})
 
+	seenS := map[string]bool{}
+	for _, l := range a.locks {
+		k := a.posStr(l.pos) + "|" + l.class
+		if !seenS[k] {
+			seenS[k] = true
+			out.Sites = append(out.Sites, outSite{Pos: a.posStr(l.pos), Class: l.class, Func: fname(l.fn)})
+		}
+	}
+	sort.Slice(out.Sites, func(i, j int) bool {
+		if out.Sites[i].Pos != out.Sites[j].Pos {
+			return out.Sites[i].Pos < out.Sites[j].Pos
+		}
+		return out.Sites[i].Class < out.Sites[j].Class
+	})
 	// ---- edges
 	seenE := map[string]bool{}
 	for _, l := range a.locks {
